@@ -22,6 +22,7 @@ MH = Heap.fresh('_MODEL')
 MB = z3.Int('MODEL_BOUND')
 
 WFEXPR = ufun('WFEXPR', V, Bool)
+PARSED_EXPR = ufun('PARSED_EXPR', V, Bool)      # an expression model returned by parse_expression
 ARGRES = ufun('ARGRES', Int, V)          # ghost: the value the i-th call argument evaluated to
 EXPRFN_HAS = ufun('TABLE_HAS_library.EXPRESSION_FUNCTIONS', Str, Bool)
 EXPRFN = ufun('TABLE_library.EXPRESSION_FUNCTIONS', Str, V)
@@ -180,7 +181,7 @@ class EvaluateExpression(FnContract):
 
     def pre(self, K):
         h = K.heap
-        return [('wf-expr', WFEXPR(K.term(0))),
+        return [('wf-expr', z3.Or(WFEXPR(K.term(0)), PARSED_EXPR(K.term(0)))),
                 ('wf-options', wf_options(h, K.term(1))),
                 ('wf-locals', wf_locals(h, K.term(2))),
                 ('model-frozen', frozen(h))]
@@ -188,6 +189,10 @@ class EvaluateExpression(FnContract):
     def axioms(self, K):
         e = K.term(0)
         out = [('WFEXPR-def', z3.Implies(WFEXPR(e), wfexpr_def(e)))]
+        if K.ctx.ghost.get('K') is K:
+            # verified for a model in the frozen region; an expression returned by parse_expression is the same contract
+            # instantiated with its own region (meta-argument)
+            out.append(('verified-for-frozen-models', WFEXPR(e)))
         # shallow consequences of well-formedness for the direct sub-expressions (instances of the definition)
         args = _sub(e, 'function', 'args')
         kids = [_sub(e, 'group'), _sub(e, 'unary', 'expr'), _sub(e, 'binary', 'left'), _sub(e, 'binary', 'right')]
